@@ -84,12 +84,12 @@ def check(case, out, consts=None):
         try:
             if t[0] == "H":
                 H = dict(zip(("SUCCESS", "TRUNCATE", "IN_STATUS", "PROC_NULL", "ANY_TAG", "ANY_SOURCE"), map(int, t[1:7])))
-            elif t[0] == "r" and len(t) == 13:
+            elif t[0] == "r" and len(t) == 16:
                 v = list(map(int, t[1:]))
                 k = (v[0], v[1])
                 if k in rrec:
                     bad("recv:completed-twice", "receive op %s completed twice" % (k,))
-                rrec[k] = dict(zip(("rank", "op", "api", "rc", "src", "tag", "count", "sterr", "crc", "first", "guard", "cap"), v))
+                rrec[k] = dict(zip(("rank", "op", "api", "rc", "src", "tag", "count", "sterr", "crc", "first", "guard", "cap", "wlen", "wfirst", "wcrc"), v))
                 rrec[k]["order"] = len(rrec)
             elif t[0] == "p" and len(t) == 8:
                 v = list(map(int, t[1:]))
@@ -111,10 +111,12 @@ def check(case, out, consts=None):
 
     # resolve probed patterns and identify the message of every completed receive
     received = {}         # mid -> recv key
-    match = {}            # recv key -> message
+    match = {}            # recv key -> message (strongly identified: by the bytes of the message)
+    weak = {}             # recv key -> message assumed for the exactly-once accounting only (nothing in the bytes identifies it)
     lastprobe = {}
     for k in sorted(prec):
         lastprobe.setdefault(k[0], []).append(k)
+    info = {}
     for k, o in sorted(rrec.items(), key=lambda kv: kv[1]["order"]):
         R = recvs.get(k)
         if R is None:
@@ -127,7 +129,6 @@ def check(case, out, consts=None):
             if (o["src"], o["tag"], o["count"]) != (H["PROC_NULL"], H["ANY_TAG"], 0) or o["rc"] != H["SUCCESS"]:
                 bad("status:proc-null", "receive from MPI_PROC_NULL answered %s" % (o,))
             continue
-        # effective pattern (world rank or ANY)
         psrc, ptag = R["src"], R["tag"]
         pr = None
         if psrc == G.PROBED or ptag == G.PROBED:
@@ -143,30 +144,68 @@ def check(case, out, consts=None):
         psrc_w = G.ANY if psrc_c == G.ANY else (g[psrc_c] if 0 <= psrc_c < len(g) else None)
         if psrc_w == G.ANY or ptag == G.ANY:
             stats["wildcard_recvs"] += 1
-        cap = o["cap"]
-        ssrc_w = g[o["src"]] if 0 <= o["src"] < len(g) else None
-        # identify
-        M = None
-        n = min(max(o["count"], 0), cap)
-        if n >= 4 and o["first"] in sends:
-            M = sends[o["first"]]
-        else:
-            # short (or truncated to < 4 bytes) message: identify it by its bytes (the first bytes are the low bytes of the id) among
-            # the unreceived messages to this rank, preferring the envelope the status announces
-            cands = [m for m in sends.values() if m["dst"] == q and m["mid"] not in received and
-                     (m["len"] == o["count"] or m["len"] > cap) and G.crc(m["mid"], n) == o["crc"]]
-            cands.sort(key=lambda m: (not (m["src"] == ssrc_w and m["tag"] == o["tag"] and m["ci"] == ci), m["seq"]))
-            if cands:
-                M = cands[0]
-        if M is None:
-            bad("bytes:unknown-message", "op %s: no sent message fits what was received: %s" % (k, o))
-            continue
-        if M["mid"] in received:
-            bad("match:duplicate", "message %d received twice (ops %s and %s)" % (M["mid"], received[M["mid"]], k))
-            continue
-        received[M["mid"]] = k
-        match[k] = M
         R["eff"] = (psrc_w, ptag)
+        lost = o["src"] == H["ANY_SOURCE"]          # an emptied status
+        info[k] = {"pr": pr, "lost": lost, "ssrc_w": g[o["src"]] if 0 <= o["src"] < len(g) else None}
+    # pass 1: >= 4 bytes in the buffer: the message id is in the bytes
+    order = [k for k, _ in sorted(rrec.items(), key=lambda kv: kv[1]["order"]) if k in info]
+    for k in order:
+        o = rrec[k]
+        n = min(max(o["count"], 0), o["cap"])
+        if n >= 4:
+            mid = o["first"]
+        elif info[k]["lost"] and o["wlen"] >= 4:
+            mid = o["wfirst"]
+        else:
+            continue
+        if mid not in sends:
+            bad("bytes:unknown-message", "op %s: the received bytes belong to no sent message: %s" % (k, o))
+            info[k]["dead"] = True
+        elif mid in received:
+            bad("match:duplicate", "message %d received twice (ops %s and %s)" % (mid, received[mid], k))
+            info[k]["dead"] = True
+        else:
+            received[mid] = k
+            match[k] = sends[mid]
+    # pass 2: 1..3 bytes: the low bytes of the id; pass 3: no byte at all: only the envelope of the status (weak)
+    def nbytes(k):
+        return rrec[k]["wlen"] if info[k]["lost"] else min(max(rrec[k]["count"], 0), rrec[k]["cap"])
+
+    for k in sorted(order, key=lambda k: (nbytes(k) == 0, rrec[k]["order"])):
+        if k in match or info[k].get("dead"):
+            continue
+        o, R = rrec[k], recvs[k]
+        q, ci = R["rank"], R["ci"]
+        n = nbytes(k)
+        cands = [m for m in sends.values() if m["dst"] == q and m["mid"] not in received and
+                 (m["len"] == n or m["len"] > o["cap"]) and G.crc(m["mid"], n) == (o["wcrc"] if info[k]["lost"] else o["crc"])]
+        env = [m for m in cands if m["ci"] == ci and (info[k]["lost"] or (m["src"] == info[k]["ssrc_w"] and m["tag"] == o["tag"]))]
+        env.sort(key=lambda m: ((m["len"] > o["cap"]) != (H["TRUNCATE"] in (o["rc"], o["sterr"])), m["seq"]))
+        if n >= 1 and len(cands) == 1:
+            received[cands[0]["mid"]] = k
+            match[k] = cands[0]
+        elif n >= 1 and len(env) == 1:
+            received[env[0]["mid"]] = k
+            match[k] = env[0]
+        elif env:
+            received[env[0]["mid"]] = k
+            weak[k] = env[0]
+            stats["weakly_identified"] = stats.get("weakly_identified", 0) + 1
+        else:
+            bad("bytes:unknown-message", "op %s: no sent message fits what was received: %s" % (k, o))
+    for k in order:
+        o, R = rrec[k], recvs[k]
+        q, ci = R["rank"], R["ci"]
+        g = group(case, ci, q)
+        psrc_w, ptag = R["eff"]
+        pr, ssrc_w, cap = info[k]["pr"], info[k]["ssrc_w"], o["cap"]
+        if info[k]["lost"]:
+            bad("status:lost:%s" % APINAME.get(o["api"]), "rank %d op %d: the receive completed through %s with an empty status (source=MPI_ANY_SOURCE, "
+                "tag=%d, count=%d) although %d bytes arrived in its buffer" % (q, R["op"], APINAME.get(o["api"]), o["tag"], o["count"], o["wlen"]),
+                suffix=False)
+        M = match.get(k)
+        if M is None:
+            continue
         desc = "rank %d op %d %s(src=%s,tag=%s,cap=%d,comm=%d) got message %d (from %d tag %d len %d comm %d %s)" % (
             q, R["op"], APINAME.get(o["api"], "?"), psrc_w, ptag, cap, ci, M["mid"], M["src"], M["tag"], M["len"], M["ci"],
             sizeclass(case, M))
@@ -180,6 +219,8 @@ def check(case, out, consts=None):
             bad("match:incompatible-source", desc)
         if ptag != G.ANY and ptag != M["tag"]:
             bad("match:incompatible-tag", desc)
+        if info[k]["lost"]:
+            continue
         if ssrc_w != M["src"]:
             bad("status:source", desc + " but status.MPI_SOURCE=%d" % o["src"])
         if o["tag"] != M["tag"]:
@@ -240,7 +281,8 @@ def check(case, out, consts=None):
             M2 = match[nxt]
             for M1 in sends.values():
                 if M1["src"] == M2["src"] and M1["dst"] == q and M1["ci"] == ci and M1["seq"] < M2["seq"] and \
-                        (P["tag"] == G.ANY or P["tag"] == M1["tag"]) and M1["mid"] in received and received[M1["mid"]][1] > k[1]:
+                        (P["tag"] == G.ANY or P["tag"] == M1["tag"]) and M1["mid"] in received and received[M1["mid"]] in match and \
+                        received[M1["mid"]][1] > k[1]:
                     bad("probe-overtake:%s:first=%s:second=%s" % ("any_tag" if P["tag"] == G.ANY else "tag", sizeclass(case, M1),
                                                                    sizeclass(case, M2)),
                         "rank %d op %d probe(src=%s,tag=%s,comm=%d) answered message %d (tag %d len %d) although message %d (tag %d len %d) "
